@@ -84,10 +84,11 @@ def xorBits (M : Mzd) (x y n : Nat) (values : Word) : Mzd := M.setRow x (xorBits
 /-- `mzd_and_bits` -/
 def andBitsRow (r : Row) (y n : Nat) (values : Word) : Row :=
   let values := values >>> (64 - n)
+  let mask : Word := ffff >>> (64 - n)
   let spot := y % 64
   let block := y / 64
-  let r := r.modify block fun w => w &&& (values <<< spot)
-  if n > 64 - spot then r.modify (block + 1) fun w => w &&& (values >>> (64 - spot)) else r
+  let r := r.modify block fun w => w &&& ((values <<< spot) ||| ~~~(mask <<< spot))
+  if n > 64 - spot then r.modify (block + 1) fun w => w &&& ((values >>> (64 - spot)) ||| ~~~(mask >>> (64 - spot))) else r
 
 def andBits (M : Mzd) (x y n : Nat) (values : Word) : Mzd := M.setRow x (andBitsRow (M.row x) y n values)
 
